@@ -58,6 +58,10 @@ impl Var {
         let to = Rc::<str>::try_from(to)?;
         if let Some(from) = from.chars().next() {
             if let Some(to) = to.chars().next() {
+                if !from.is_ascii_uppercase() || !to.is_ascii_uppercase() {
+                    // not the letters the parser supplies (operands shifted by CONT after an error)
+                    return Err(error!(IllegalFunctionCall));
+                }
                 for idx in (from as usize - 'A' as usize)..=(to as usize - 'A' as usize) {
                     self.types[idx] = var_type.clone();
                 }
